@@ -188,6 +188,7 @@ type SymOpts struct {
 	Inline    func(callee *ssa.Function) bool // which module callees to inline (default: all module functions with bodies)
 	Pure      func(name string) bool          // calls that are functions of their arguments (no Seq, no trace)
 	LoopBound int                             // how many times a block may be re-entered on one path (0: loops abort the path)
+	Assume    func(cond *T) (bool, bool)      // fixes the outcome of a branch condition (value, decided) to restrict the enumeration
 }
 
 type symState struct {
@@ -680,6 +681,12 @@ func (sy *Sym) execIf(fn *ssa.Function, b *ssa.BasicBlock, x *ssa.If, st *symSta
 		return
 	}
 	key := c.String()
+	if sy.opts.Assume != nil {
+		if v, ok := sy.opts.Assume(c); ok {
+			st.ckey[key] = v
+			st.conds = append(st.conds, Cond{c, v})
+		}
+	}
 	if v, ok := st.ckey[key]; ok {
 		if v == pol {
 			sy.execBlock(fn, b.Succs[0], b, st, depth, k)
